@@ -567,6 +567,13 @@ func (ex *Exec) readGlobal(st *State, o types.Object) *Val {
 	name := globalName(o)
 	t := ex.heap(st, name, ex.sortOf(o.Type()))
 	v := &Val{T: o.Type(), Term: t}
+	if st.specDef == nil {
+		ex.wf(st, v)
+		if isRefLike(o.Type()) {
+			// package-level values exist before the verified call starts
+			st.assume(lt(t, ex.D.konst("$alloc@0", SInt)))
+		}
+	}
 	// package-level error sentinels and similar are non-nil
 	if isRefLike(o.Type()) {
 		if types.Identical(o.Type(), tErr) && (strings.HasPrefix(o.Name(), "Err") || strings.HasPrefix(o.Name(), "err") || o.Name() == "EOF") {
